@@ -6,6 +6,7 @@ the class by reference.
 from __future__ import annotations
 
 import inspect
+import zlib
 
 import numpy as np
 
@@ -202,7 +203,8 @@ class Fn:
     of Terms carrying their internal index.
     """
 
-    def __init__(self, name, params, defaults=None, n_out=1, out_shape=None, tag=""):
+    def __init__(self, name, params, defaults=None, n_out=1, out_shape=None, tag="", none_mod=0):
+        self.none_mod = none_mod  # >0: return None (a legitimate value) for about one call in none_mod
         self.name = name
         self.params = tuple(params)
         self.sig_defaults = dict(defaults or {})
@@ -224,7 +226,7 @@ class Fn:
         self.__signature__ = inspect.Signature(ps)
 
     def __reduce__(self):
-        return (Fn, (self.name, self.params, self.sig_defaults, self.n_out, self.out_shape, self.tag))
+        return (Fn, (self.name, self.params, self.sig_defaults, self.n_out, self.out_shape, self.tag, self.none_mod))
 
     def _one(self, fname, args):
         if self.out_shape is None:
@@ -236,6 +238,9 @@ class Fn:
 
     def build(self, args):
         base = self.name + self.tag
+        if self.none_mod and self.n_out == 1 and self.out_shape is None \
+                and zlib.crc32(repr((base, args)).encode()) % self.none_mod == 0:
+            return None
         if self.n_out == 1:
             return self._one(base, args)
         return tuple(self._one(f"{base}#{k}", args) for k in range(self.n_out))
